@@ -313,6 +313,8 @@ class C04(HistProp):
             if py.get(p + 'proot') != mo[p + 'sroot']:
                 out.append(F('prop', 'root after op %d %s' % (i, show(op)), py.get(p + 'proot'), mo[p + 'sroot']))
                 break
+            # drift stream (never gating): exact tree shape of the backing vs the Impl mirror
+            bump(stats, 'errs', 'shape-drift' if py.get(p + 'pshape') != mo.get(p + 'ishape') else 'shape-equal')
             if py.get(p + 'pbytes') != mo[p + 'sbytes']:
                 out.append(F('prop', 'encoding after op %d %s' % (i, show(op)), py.get(p + 'pbytes'), mo[p + 'sbytes']))
                 break
@@ -726,6 +728,8 @@ class C15(ValProp):
             out.append(F('prop', '==, !=, hash of equal values', py.get('p.eq'), '111'))
         if mo['i.read'] != v:
             out.append(F('model', 'i.read', mo['i.read'], v))
+        if mo.get('i.iter') != v:
+            out.append(F('model', 'i.iter (stack iterators of the model)', mo.get('i.iter'), v))
         return out
 
 
